@@ -67,6 +67,8 @@ let model_query dbg (m : MapModel.mmap) (k : string) : string option =
   | "count" -> Some (res_str pair_str (MapModel.map_count dbg m))
   | "fE" -> find MapModel.Exact | "fB" -> find MapModel.Below | "fA" -> find MapModel.Above
   | "gE" -> get MapModel.Exact | "gB" -> get MapModel.Below | "gA" -> get MapModel.Above
+  (* get_mut: the same expression as get in map/mod.rs, behind &mut *)
+  | "mE" -> get MapModel.Exact | "mB" -> get MapModel.Below | "mA" -> get MapModel.Above
   | "cr" -> let (f, l) = parse_range arg in Some (res_str pair_str (MapModel.map_count_range dbg m f l))
   | "ir" -> let (f, l) = parse_range arg in Some (res_str segs_str (MapModel.map_iter_range dbg m f l))
   | _ -> None
@@ -80,7 +82,7 @@ let spec_query (d : DictSpec.dict) (k : string) : (string * string) option =
   | "len" -> Some (hx (DictSpec.d_len d), "iter_not_runs")
   | "count" -> Some (pair_str (DictSpec.d_count d), "count")
   | "fE" -> find DictSpec.MExact | "fB" -> find DictSpec.MBelow | "fA" -> find DictSpec.MAbove
-  | "gE" -> Some (opt_str seg_str (DictSpec.d_get_exact d (n_of_hex arg)), "lookup_get")
+  | "gE" | "mE" -> Some (opt_str seg_str (DictSpec.d_get_exact d (n_of_hex arg)), "lookup_get")
   | "cr" -> let (f, l) = parse_range arg in Some (pair_str (DictSpec.d_count_range d f l), "count_range")
   | "ir" -> let (f, l) = parse_range arg in Some (segs_str (DictSpec.d_iter_range d f l), "iter_range")
   | _ -> None
